@@ -265,8 +265,8 @@ CASES["C11"] = [
     ("lifetime: reintroduce one-level casts only", "mutant", SALLOC, "@revert:741773c", "", ["C11.lifetime"]),
     ("lifetime: nested uses not lifted", "mutant", SALLOC, "                    use_op = get_top_level_op(use.operation)\n                    uses[use_op].append(buffer)\n", "                    uses[use.operation].append(buffer)\n", ["C11.lifetime"]),
     ("lifetime: subviews not followed", "mutant", SALLOC, "                    | memref.SubviewOp\n", "", ["C11.lifetime"]),
-    ("lifetime: pointer without memory.start", "mutant", SALLOC, "pointer_result[buffer.id] = offset + memory.start", "pointer_result[buffer.id] = offset", ["C11.lifetime"]),
-    ("lifetime: solver without capacity", "mutant", SALLOC, "problem = Problem(buffers_subset, memory.capacity)", "problem = Problem(buffers_subset, 2**31)", ["C11.lifetime"]),
+    ("lifetime: pointer without memory.start", "mutant", SALLOC, "pointer_result[buffer.id] = offset + base", "pointer_result[buffer.id] = offset", ["C11.lifetime"]),
+    ("lifetime: solver without capacity", "mutant", SALLOC, "problem = Problem(buffers_subset, memory.capacity - (base - memory.start))", "problem = Problem(buffers_subset, 2**31)", ["C11.lifetime"]),
     ("descriptor: sizes at [3, 0]", "mutant", SALLOC, "builtin.DenseArrayBase.from_list(builtin.i64, [3, i]), llvm_struct.res, shape_op.results[0]", "builtin.DenseArrayBase.from_list(builtin.i64, [3, 0]), llvm_struct.res, shape_op.results[0]", ["C11.descriptor"]),
     ("descriptor: pointer and aligned swapped", "mutant", SALLOC, "llvm.InsertValueOp(builtin.DenseArrayBase.from_list(builtin.i64, [0]), llvm_struct.res, pointer)", "llvm.InsertValueOp(builtin.DenseArrayBase.from_list(builtin.i64, [0]), llvm_struct.res, aligned_pointer)", ["C11.descriptor"]),
     ("static: constant-size check dropped", "mutant", SALLOC, "        if not isinstance(op.size.op, arith.ConstantOp):\n            raise RuntimeError(\"Static allocations should have a statically known size.\")\n        if op.memory_space is None:\n            raise RuntimeError(\"Allocations need a defined memory space\")\n\n        size_attr = op.size.op.value\n        assert isa(size_attr, IntegerAttr[IndexType])\n        size = size_attr.value.data\n\n        alignment_attr = op.alignment\n        if alignment_attr is None:\n            alignment = 0\n        else:\n            alignment = alignment_attr.value.data\n\n        # get the memory space",
@@ -983,4 +983,7 @@ CASES["C17"] += [
 ]
 CASES["C03"] += [
     ("reintroduce F-58 (rotate(0) duplicates dimension 0)", "mutant", "snaxc/ir/dart/access_pattern.py", "@revert:f9f6d6f~1", "", ["C03.rotate"]),
+]
+CASES["C11"] += [
+    ("reintroduce F-59 (minimalloc offsets added to an unaligned memory.start)", "mutant", "snaxc/transforms/snax_allocate.py", "@revert:8c368e2~1", "", ["C11.lifetime"]),
 ]
